@@ -5,7 +5,9 @@ package tests_test
 // the unbonding period now and then) and after every step an INDEPENDENT enumeration of the primary records checks:
 //   delegator_shares_sum_to_validator_total, validator_shares_sum_to_asset_total, no_negative_shares, shares_reset_when_nothing_staked (C03)
 //   custody_equals_staked_plus_pending (C01: bank balance of the module = asset total + all pending unbonding entries)
-//   unbondings_paid_exactly_once_at_maturity (C02: a user's balance changes only by what they put in, and by pending entries that matured)
+//   user_balances_change_only_by_deposits_and_matured_unbondings, matured_unbondings_are_removed (C02: paid once, exactly, to the owner, at CompleteUnbondings)
+//   slashed_validators_pending_entries_lose_exactly_the_fraction, other_pending_entries_untouched_by_a_slash, slash_keeps_the_pending_entries (C07;
+//        regime "@shared_bucket" when the entry shares its (completion, delegator) bucket with other entries: the recorded bucket-wide-slash finding)
 // Facts are qualified by the same regimes as the positions check ("", @18dec, @after_full_slash, @zero_valued_validator); the share-sum
 // fact also uses "@rounder_dust" when, in the plain regime, the two sides differ by less than the 0.01 Rounder.
 // This is a bounded check, never counted as proved. Run by `gvc check C01|C02|C03 --tier thorough`.
@@ -101,11 +103,30 @@ func TestBoundedLedger(t *testing.T) {
 		}
 		fullSlash := false
 		now := start
+		// directed prelude (every fourth history): one delegator unbonds from two validators in the same block; a later slash of the first one is then a forced step
+		forcedSlash := -1
+		if hist%4 == 1 {
+			pre := ctx.WithBlockHeight(2).WithBlockTime(now)
+			for _, vi0 := range []int{0, 1} {
+				_, e := app.AllianceKeeper.Delegate(pre, users[0], getVal(pre, vals[vi0]), sdk.NewCoin(AllianceDenom, math.NewInt(1_000_000)))
+				require.NoError(t, e)
+				net[users[0].String()][AllianceDenom] = net[users[0].String()][AllianceDenom].Sub(math.NewInt(1_000_000))
+			}
+			for _, vi0 := range []int{0, 1} {
+				_, e := app.AllianceKeeper.Undelegate(pre, users[0], getVal(pre, vals[vi0]), sdk.NewCoin(AllianceDenom, math.NewInt(400_000)))
+				require.NoError(t, e)
+			}
+			forcedSlash = 0
+		}
 		for step := 0; step < 16; step++ {
 			steps++
-			now = now.Add(time.Minute)
-			if rng.Intn(5) == 0 {
+			switch rng.Intn(10) {
+			case 0, 1:
 				now = now.Add(unbondingTime + time.Second)
+			case 2, 3, 4, 5:
+				now = now.Add(time.Minute)
+			default:
+				// same block time: several unbondings of one delegator share a (completion, delegator) bucket
 			}
 			ctx = ctx.WithBlockHeight(int64(step + 2)).WithBlockTime(now)
 			ui, vi, di := rng.Intn(nUsers), rng.Intn(nVals), rng.Intn(2)
@@ -116,11 +137,42 @@ func TestBoundedLedger(t *testing.T) {
 				nf = 3
 			}
 			d := denoms[di]
+			// snapshots for the C02 / C07 facts
+			balBefore := map[string]math.Int{}
+			for ui2, u := range users {
+				for _, dn := range denoms {
+					balBefore[fmt.Sprintf("%d|%s", ui2, dn)] = app.BankKeeper.GetBalance(ctx, u, dn).Amount
+				}
+			}
+			type entrySnap struct {
+				t            time.Time
+				del, val, dn string
+				amt          math.Int
+				shared       bool
+			}
+			var pendBefore []entrySnap
+			app.AllianceKeeper.IterateUndelegations(ctx, func(u types.QueuedUndelegation, ct time.Time) bool {
+				shared := false
+				for _, e := range u.Entries {
+					if e.ValidatorAddress != u.Entries[0].ValidatorAddress || e.Balance.Denom != u.Entries[0].Balance.Denom {
+						shared = true
+					}
+				}
+				for _, e := range u.Entries {
+					pendBefore = append(pendBefore, entrySnap{ct, e.DelegatorAddress, e.ValidatorAddress, e.Balance.Denom, e.Balance.Amount, shared || len(u.Entries) > 1})
+				}
+				return false
+			})
+			opKind, opUser, opDenom, opAmount, opVal, opFrac := "", -1, "", math.ZeroInt(), -1, math.LegacyZeroDec()
 			cctx, write := ctx.CacheContext()
 			desc := ""
 			var err error
 			var pan interface{}
-			switch op := rng.Intn(10); {
+			op0 := rng.Intn(10)
+			if step == 0 && forcedSlash >= 0 {
+				op0, vi = 8, forcedSlash
+			}
+			switch op := op0; {
 			case op < 4:
 				desc = fmt.Sprintf("history %d step %d: Delegate(user %d, val %d, %s%s)", hist, step, ui, vi, amount, d)
 				err, pan = try(func() error {
@@ -130,6 +182,7 @@ func TestBoundedLedger(t *testing.T) {
 				if err == nil && pan == nil {
 					net[users[ui].String()][d] = net[users[ui].String()][d].Sub(amount)
 				}
+				opKind, opUser, opDenom, opAmount = "delegate", ui, d, amount
 			case op < 6:
 				del, found := app.AllianceKeeper.GetDelegation(cctx, users[ui], vals[vi], d)
 				if !found {
@@ -174,9 +227,11 @@ func TestBoundedLedger(t *testing.T) {
 					fullSlash = true
 				}
 				desc = fmt.Sprintf("history %d step %d: SlashValidator(val %d, %s)", hist, step, vi, f)
+				opKind, opVal, opFrac = "slash", vi, f
 				err, pan = try(func() error { return app.AllianceKeeper.SlashValidator(cctx, vals[vi], f) })
 			default:
 				desc = fmt.Sprintf("history %d step %d: CompleteUnbondings at %s", hist, step, now.Format(time.RFC3339))
+				opKind = "complete"
 				err, pan = try(func() error { return app.AllianceKeeper.CompleteUnbondings(cctx) })
 			}
 			if pan != nil || err != nil {
@@ -207,6 +262,79 @@ func TestBoundedLedger(t *testing.T) {
 			default:
 				regime = ""
 				plainSteps++
+			}
+			// C02: user balances change only by what the user deposits and by pending entries that matured (paid once, exactly, to their owner)
+			{
+				want := map[string]math.Int{}
+				for k, v := range balBefore {
+					want[k] = v
+				}
+				if opKind == "delegate" {
+					k := fmt.Sprintf("%d|%s", opUser, opDenom)
+					want[k] = want[k].Sub(opAmount)
+				}
+				if opKind == "complete" {
+					for _, e := range pendBefore {
+						if e.t.Before(now) {
+							for ui2, u := range users {
+								if u.String() == e.del {
+									k := fmt.Sprintf("%d|%s", ui2, e.dn)
+									want[k] = want[k].Add(e.amt)
+								}
+							}
+						}
+					}
+				}
+				for ui2, u := range users {
+					for _, dn := range denoms {
+						k := fmt.Sprintf("%d|%s", ui2, dn)
+						if got := app.BankKeeper.GetBalance(ctx, u, dn).Amount; !got.Equal(want[k]) {
+							fact("user_balances_change_only_by_deposits_and_matured_unbondings", "%s: user %d %s balance is %s, expected %s (was %s)", desc, ui2, dn, got, want[k], balBefore[k])
+						}
+					}
+				}
+				var pendAfter []entrySnap
+				app.AllianceKeeper.IterateUndelegations(ctx, func(u types.QueuedUndelegation, ct time.Time) bool {
+					for _, e := range u.Entries {
+						pendAfter = append(pendAfter, entrySnap{ct, e.DelegatorAddress, e.ValidatorAddress, e.Balance.Denom, e.Balance.Amount, false})
+					}
+					return false
+				})
+				if opKind == "complete" {
+					for _, e := range pendAfter {
+						if e.t.Before(now) {
+							fact("matured_unbondings_are_removed", "%s: an entry of %s%s completing at %s is still queued", desc, e.amt, e.dn, e.t.Format(time.RFC3339))
+						}
+					}
+				}
+				// C07: a slash reduces exactly the pending entries of the slashed validator, by floor(f x amount), and no other entry
+				if opKind == "slash" {
+					// match entries by position: the queue keeps order and identity (the contracts prove entries are only reduced)
+					if len(pendAfter) == len(pendBefore) {
+						for i, e := range pendBefore {
+							a := pendAfter[i]
+							saved := regime
+							if e.shared {
+								regime = "@shared_bucket" // the entry shares its (completion, delegator) bucket with other entries: recorded C07 finding
+							}
+							mine := e.val == vals[opVal].String() && !e.t.Before(now)
+							wantAmt := e.amt
+							if mine {
+								wantAmt = e.amt.Sub(opFrac.MulInt(e.amt).TruncateInt())
+							}
+							if !a.amt.Equal(wantAmt) {
+								if mine {
+									fact("slashed_validators_pending_entries_lose_exactly_the_fraction", "%s: entry of %s%s (validator %s) became %s, expected %s", desc, e.amt, e.dn, e.val, a.amt, wantAmt)
+								} else {
+									fact("other_pending_entries_untouched_by_a_slash", "%s: entry of %s%s of validator %s (not the slashed one, or matured) became %s", desc, e.amt, e.dn, e.val, a.amt)
+								}
+							}
+							regime = saved
+						}
+					} else {
+						fact("slash_keeps_the_pending_entries", "%s: %d pending entries before, %d after", desc, len(pendBefore), len(pendAfter))
+					}
+				}
 			}
 			// independent enumeration
 			delSum := map[string]math.LegacyDec{}
